@@ -203,6 +203,16 @@ FLog2(a) ==
            Bits(x) == IF x <= 1 THEN 0 ELSE 1 + Bits(x \div 2)
        IN 15 * (Len(m) - 1) + Bits(top) - F
 
+\* pi by Machin's formula  pi = 16 atan(1/5) - 4 atan(1/239),  atan(1/n) = SUM (-1)^k / ((2k+1) n^(2k+1))
+RECURSIVE FAtanInvAcc(_,_,_,_)
+FAtanInvAcc(n, p, k, acc) ==      \* p = 1/n^(2k+1)
+  IF Sgn(p) = 0 THEN acc
+  ELSE LET term == FDivInt(p, 2 * k + 1)
+       IN FAtanInvAcc(n, FDivInt(FDivInt(p, n), n), k + 1,
+                      IF k % 2 = 0 THEN FAdd(acc, term) ELSE FSub(acc, term))
+FAtanInv(n) == FAtanInvAcc(n, FDivInt(FInt(1), n), 0, <<0>>)
+FPi == FSub(FMulInt(FAtanInv(5), 16), FMulInt(FAtanInv(239), 4))
+
 -----------------------------------------------------------------------------
 (* Sums, vectors, matrices (sequences of rows) over Fix *)
 
@@ -242,6 +252,23 @@ MMaxAbs(A) == VMaxAbs([k \in 1..(Len(A) * Len(A[1])) |->
 MFrob(A, C) == FSum([k \in 1..(Len(A) * Len(A[1])) |->
                  FMul(A[((k - 1) \div Len(A[1])) + 1][((k - 1) % Len(A[1])) + 1],
                       C[((k - 1) \div Len(A[1])) + 1][((k - 1) % Len(A[1])) + 1])])
+
+MAbs(A) == [i \in 1..Len(A) |-> [j \in 1..Len(A[1]) |-> FAbs(A[i][j])]]
+\* reporting: the largest ratio |A_ij - C_ij| / T_ij in thousandths (saturating), i.e. <= 1000
+\* iff A agrees with C within the entry-wise tolerance matrix T
+RECURSIVE MRatioFrom(_,_,_,_,_)
+MRatioFrom(A, C, T, k, acc) ==
+  IF k > Len(A) * Len(A[1]) THEN acc
+  ELSE LET i == ((k - 1) \div Len(A[1])) + 1
+           j == ((k - 1) % Len(A[1])) + 1
+           r == FRatioMilli(FAbs(FSub(A[i][j], C[i][j])), T[i][j])
+       IN MRatioFrom(A, C, T, k + 1, IF r > acc THEN r ELSE acc)
+MRatioMilli(A, C, T) == MRatioFrom(A, C, T, 1, 0)
+
+\* identity functions; their overrides force TLC's lazily evaluated function values into
+\* tuples once (a performance device only)
+MStrict(A) == A
+VStrict(v) == v
 
 \* determinant and inverse by Laplace expansion (definition; the override
 \* uses Gauss-Jordan elimination with pivoting in the same fixed point)
